@@ -49,12 +49,14 @@ Sets == { [client |-> "cl1", height |-> 5, set |-> [a |-> 1, b |-> 1, c |-> 1]],
           [client |-> "other", height |-> 9, set |-> [z |-> 5]],
           [client |-> "", height |-> 9, set |-> [z |-> 5]] }
 
+ClientEvents == {[type |-> "SetClient", signer |-> a, client |-> c] : a \in {"e1", "x"}, c \in {"cl1", "", "other"}}
 Events(s) ==
   { [type |-> "UpdateHostSet", client |-> x.client, height |-> x.height, set |-> x.set] : x \in Sets }
   \cup { [type |-> "UpdateOracle", signer |-> a, height |-> h, votes |-> vs] :
            a \in {"e1"}, h \in {9},
            vs \in LET T == IF s.price["TS"].ts < 10 THEN 10 ELSE 20 IN
                   IF Cardinality(DOMAIN s.hostVals) = 5 THEN FiveLists(T) ELSE VoteLists(T) }
+  \cup ClientEvents
   \cup { [type |-> "UpdateOracle", signer |-> a, height |-> h, votes |-> <<Vote("a", "commit", "ok", Px(30, 1)), Vote("b", "commit", "ok", Px(30, 1)), Vote("c", "commit", "ok", Px(30, 1))>>] :
            a \in {"e1", "x"}, h \in {0, 4, 9} }
 
@@ -78,6 +80,6 @@ Emit ==
 
 ----------------------------------------------------------------------------
 NextOutcome == [e |-> last'.e, ok |-> last'.ok, resp |-> last'.resp, failed |-> last'.failed]
-P_Oracle == [][QuorumSound(st, NextOutcome, st') /\ HeightNotOlder(st, NextOutcome, st') /\ HostSetOnlyForward(st, NextOutcome, st')]_vars
+P_Oracle == [][QuorumSound(st, NextOutcome, st') /\ HeightNotOlder(st, NextOutcome, st') /\ HostSetOnlyForward(st, NextOutcome, st') /\ ClientBound(st, NextOutcome, st')]_vars
 P_NoEffectOnReject == [][NoEffectOnReject(st, NextOutcome, st')]_vars
 =============================================================================
